@@ -109,7 +109,14 @@ def harness(ctx):
     # a REAL RewritingContext (so that whatever state __init__ sets up exists), with the collaborators under contract replaced
     from gtirb_test_helpers import create_test_module
     _ir, _m = create_test_module(gtirb.Module.FileFormat.ELF, gtirb.Module.ISA.X64)
-    self_ = RW.RewritingContext(_m, [])
+    # logging must be transparent: the same calls whether or not the context's logger lets DEBUG records through
+    import logging as _logging
+    lg = _logging.getLogger("pyvc.c16.invoke.%d" % ctx.choose(2, "debug-logging-enabled"))
+    lg.propagate = False
+    if not lg.handlers:
+        lg.addHandler(_logging.NullHandler())
+    lg.setLevel(_logging.DEBUG if lg.name.endswith("1") else _logging.WARNING)
+    self_ = RW.RewritingContext(_m, [], logger=lg)
     self_._abi = FakeABI()
     self_._leaf_functions = {fn_uuid: leafv} if in_table else {}
     self_._patch_id = 41
